@@ -14,9 +14,16 @@ Goal True. idtac "PA:C19_datadesc". Abort.
 Print Assumptions C19_datadesc.
 
 (* index and name helpers on every indexed attribute (keys used inside groups contain no "_": per-run table obligation) *)
+(* indices below 2^4300 (real ones are below 2^20): CPython's int() refuses digit strings longer than 4300 characters, and
+   then att2idx answers 0 -- both facts are proved *)
 Theorem C19_att2idx : forall key idxs, no_us key = true -> positive_idxs idxs ->
-  att2idx (render_name key idxs) = expected_idx idxs.
-Proof. exact att2idx_render. Qed.
+  Forall (fun i => (i < 2 ^ 4300)%Z) idxs -> att2idx (render_name key idxs) = expected_idx idxs.
+Proof. exact att2idx_render_bits. Qed.
+Theorem C19_att2idx_beyond_digit_limit : forall key idxs, no_us key = true -> positive_idxs idxs -> Exists huge_idx idxs ->
+  att2idx (render_name key idxs) = IdxInt 0.
+Proof. exact att2idx_render_huge. Qed.
+Goal True. idtac "PA:C19_att2idx_beyond_digit_limit". Abort.
+Print Assumptions C19_att2idx_beyond_digit_limit.
 Goal True. idtac "PA:C19_att2idx". Abort.
 Print Assumptions C19_att2idx.
 
